@@ -276,5 +276,5 @@ func TestC13(t *testing.T) {
 	s := newSuite(t, "C13",
 		"adversarial schedules of 1..8 operations, each repeated up to 300 times, from {complete request + immediate RST_STREAM with a parked handler, streams left half-open with partial bodies, PRIORITY on ever-new ids, CONTINUATION floods of complete fields and of one never-completed string, body over / not matching its declared size, header list over the limit, PING and SETTINGS floods, handler releases, normal requests} against small limits (MaxConcurrentStreams 1..8, MaxRequestBodySize 1000..65536, MaxHeaderListSize 600..8192), optionally played 4 times on one connection. Oracle: handlers running at once <= MaxConcurrentStreams; no handler gets a body over the limit or runs for a request whose header list / body broke a limit; hook gauges (stream table, closed-id memory, buffered header and body octets; high-water marks) stay within limit-derived bounds; playing the schedule 4 times leaves the end-of-run gauges where one pass leaves them. Non-trivial = >=100 frames and a gauge sampled while a handler was parked; distinct by case hash.")
 	defer s.finish()
-	runLane(s, Lane[c13Case]{Name: "limits", Journal: true, Quick: 600, Thor: 60000, Gen: c13Gen, Run: c13Run})
+	runLane(s, Lane[c13Case]{Name: "limits", Journal: true, Quick: 600, Thor: 30000, Gen: c13Gen, Run: c13Run})
 }
